@@ -135,6 +135,15 @@ class C01(Check):
                                 'one, varying letters/digits, optional '
                                 'tails, columns either side of rexpy\'s size '
                                 'constants'),
+                    ('e1-lb', 'E1 (all 8 rex-on pipelines), every whitespace '
+                              '/ line-boundary character inside and at the '
+                              'end of short values, of values with 96..102 '
+                              'coarse-class runs and in columns of 99..101 '
+                              'distinct values'),
+                    ('e1-nulls', 'E1, object columns with one, two or three '
+                                 'kinds of null (None, nan, np.nan, pd.NA, '
+                                 'pd.NaT): strings, bools, dates, 19/20/21 '
+                                 'categories'),
                     ('e3-d2', 'E3, all 25 two-operation sequences on every '
                               'one-column frame with 0..2 rows and every '
                               'many-category column'),
@@ -151,6 +160,10 @@ class C01(Check):
                           '{us, ns}, 0..3 rows'),
                 ('e1-rexs', 'E1 (rex-on pipelines), structured strings with '
                             'ordered triples, object and categorical'),
+                ('e1-lb', 'E1 (rex-on pipelines), line-boundary characters, '
+                          'object and categorical'),
+                ('e1-nulls', 'E1, object columns with mixed kinds of null, '
+                             'three field names'),
                 ('e3-d2', 'E3, two-operation sequences, frames 0..3 rows'),
                 ('e3-frames', 'E3 over frames with the same column names '
                               '(one or two earlier frames, 22 families)'),
@@ -195,6 +208,16 @@ class C01(Check):
                         # (4 of the 8 pipelines); thorough runs all 8
                         c['pairwise'] = True
                     yield c
+        elif layer == 'e1-lb':
+            for fam in (['rexs', 'rexscat'] if tier == 'thorough'
+                        else ['rexs']):
+                for col in FA.line_boundary_columns('a', fam):
+                    yield {'mode': 'e1', 'frame': {'cols': [col]},
+                           'rex': [True]}
+        elif layer == 'e1-nulls':
+            for name in (FA.NAMES[:3] if tier == 'thorough' else ['a']):
+                for col in FA.null_flavour_columns(name):
+                    yield {'mode': 'e1', 'frame': {'cols': [col]}}
         elif layer == 'e1-names':
             for fr in self._singles('quick', FA.NAMES[1:]):
                 yield {'mode': 'e1', 'frame': fr}
@@ -282,6 +305,9 @@ class C01(Check):
                       '(dateobj)' if c['fam'] == 'dateobj' else '')
             if k == 'string' and FA.FAMILIES[c['fam']]['dtype'] == 'category':
                 k += '(cat)'
+            fl = FA.null_flavours_of(c)
+            if fl:
+                k += '(mixed-nulls)' if len(fl) > 1 else '(null=%s)' % fl[0]
             if k not in ks:
                 ks.append(k)
         rows = '0' if not cols or not cols[0]['v'] else '>0'
